@@ -11,5 +11,11 @@ for rel, cf in contract.REGISTRY.items():
     tu = cast.load(rel)
     fns = sorted({k.split('#')[0] for k in cf.kernels})
     out[rel] = {f: cproof.decl_list(tu['functions'][f]) for f in fns if f in tu['functions']}
+loops = {}
+for rel, cf in contract.REGISTRY.items():
+    tu = cast.load(rel)
+    fns = sorted({k.split('#')[0] for k in cf.kernels})
+    loops[rel] = {f: cproof.loop_kinds(tu['functions'][f]) for f in fns if f in tu['functions']}
+out['#loops'] = loops
 json.dump(out, open(os.path.join(os.path.dirname(os.path.dirname(os.path.abspath(__file__))), 'contracts', 'locals.json'), 'w'), indent=1)
-print({r: len(v) for r, v in out.items()})
+print({r: len(v) for r, v in out.items() if not r.startswith('#')})
